@@ -485,7 +485,7 @@ void epub_write_wrapper(const char * filepath, DString * body, mmd_engine * e, c
 		// Failed to open file
 		perror(filepath);
 	} else {
-		fwrite(&(result->str), result->currentStringLength, 1, output_stream);
+		fwrite(result->str, result->currentStringLength, 1, output_stream);
 		fclose(output_stream);
 	}
 
